@@ -54,14 +54,14 @@ def gen_cases(ctx):
   for i in range(ctx.n):
     if i % 3 != 2:
       mono = ["none", "increasing"][i % 2]
-      nk = int(rng.choice([2, 3, 4, 5, 8]))
+      nk = int(rng.choice([2, 3, 4, 5, 8], p=[.3, .2, .2, .15, .15]))      # nk == 2: the documented form without interior keypoint parameters
       miss = str(rng.choice(["no", "derived", "value"]))
       yield {"kind": "pwl", "units": int(rng.choice([1, 1, 2, 3])), "nk": nk, "mono": mono,
              "clamp_min": bool(mono == "increasing" and rng.rand() < .5), "clamp_max": bool(mono == "increasing" and rng.rand() < .5),
              "cyclic": bool(mono == "none" and rng.rand() < .4), "missing": miss,
              "mag": float(rng.choice([1.0, 30.0, 1e2, 1e4])), "in_form": str(rng.choice(["3d", "3d_units1", "2d", "none_if_nk2"])),
              "out_form": str(rng.choice(["3d", "2d"])), "batch_params": bool(rng.rand() < .5),
-             "imin": float(rng.choice([0.0, -5.0, 100.0])), "irange": float(rng.choice([1.0, 10.0, 0.01])),
+             "imin": float(rng.choice([0.0, -5.0, 100.0])), "irange": float(rng.choice([1.0, 10.0, 0.01, 0.25])),
              "omin": float(rng.choice([0.0, -2.0, 10.0])), "orange": float(rng.choice([1.0, 5.0, 0.0])),
              "wide": bool(rng.rand() < .5), "seed": int(rng.randint(2**31 - 1)), "exec": modes.pick(rng, (0.5, 0.2, 0.3))}
     else:
@@ -149,10 +149,18 @@ def _run_pwl(ctx, case, st):
   tol0 = core.REL_TOL * core.scale_of([omin, omax])
   delta = 4 * core.F32_EPS * max(abs(imin), abs(imax), 1e-30) * (1 + nk / 4.0)
 
-  def cond_tol(b, u):
+  def cond_tol(b, u, xq=None):
+    """Rounding allowance: the weight of piece i is uncertain by min(1, delta/length_i) - but only for an input within
+    delta of that piece; an input clearly left (right) of it gives the piece weight exactly 0 (1) in any float32
+    implementation, so a piece dropped for inputs far to its right is not absorbed."""
     d = deltas[min(b, deltas.shape[0] - 1), u].astype(np.float64)
     h = heights[min(b, heights.shape[0] - 1), u, 1:].astype(np.float64)
-    return tol0 + float(np.sum(np.abs(h) * np.minimum(1.0, delta / np.maximum(d, 1e-300))))
+    unc = np.minimum(1.0, delta / np.maximum(d, 1e-300))
+    if xq is not None:
+      left = imin + np.concatenate([[0.0], np.cumsum(d)[:-1]])
+      near = (xq >= left - 4 * delta) & (xq <= left + d + 4 * delta)
+      unc = np.where(near, unc, 0.0)
+    return tol0 + float(np.sum(np.abs(h) * unc))
 
   def degenerate(b, u):
     d = deltas[min(b, deltas.shape[0] - 1), u].astype(np.float32)
@@ -172,7 +180,7 @@ def _run_pwl(ctx, case, st):
           ok = np.isfinite(yv) and omin - tol0 <= yv <= omax + tol0
         ctx.check("pwl_calibration_fn/missing", bool(ok), "missing input -> %.6g (expected %s)" % (yv, mov if mov is not None else "a value inside the bounds"), info=info)
         continue
-      t = cond_tol(b, u)
+      t = cond_tol(b, u, float(xv))
       fk = None
       ok = bool(np.isfinite(yv)) and omin - t <= yv <= omax + t
       if not ok:
